@@ -261,6 +261,17 @@ func runC10(r *core.Run) {
 		plan.SitePrefix, plan.SiteLeft = "", 0
 		r.Probe("signing-request-during-outage")
 	}
+	// The operator's first reaction to a failed rotation: the very same command line again (same
+	// flags, same --timestamp), this time without a fault. It may be refused (leftovers, no
+	// --overwrite); whatever it does, the recorded primary stays a live, certified key.
+	if fired > 0 && rotErr != nil && r.Chance(30, "rerun-same-command?") {
+		err2, _ := a.Rotate(RotArgs{Flags: Flags{Overwrite: h.overwrite, KeepGoing: kg}})
+		r.Eventf("the same command again, fault-free -> %s", errClass(err2, false))
+		r.Probe("same-command-rerun")
+		if err2 == nil {
+			r.Probe("same-command-rerun-succeeded")
+		}
+	}
 	// (1)-(3) health as a fresh process sees it.
 	c10Health(r, a, cfg, "after the faulted rotation", firstSite, "")
 	// (5) bounded liveness once faults stop: one fault-free rotation allowed to overwrite.
